@@ -26,11 +26,27 @@ PCLS_YAML = [{"decl": "class Cls", "declarations": [
     {"decl": "Cls(int v)"}, {"decl": "~Cls()"}, {"decl": "int get() const"}, {"decl": "void set(int v)"},
     {"decl": "int add(const Cls & other, int k = 2)"},
     # member variables (docs/classes.rst "Member Variables"): descriptors of the Python type
-    {"decl": "int value"}, {"decl": "int ro +readonly"}, {"decl": "double other +name(alt)"}]}]
+    {"decl": "int value"}, {"decl": "int ro +readonly"}, {"decl": "double other +name(alt)"}]},
+    # single inheritance (tp_base): the derived type has its own method and inherits the others
+    {"decl": "class Derived : public Cls", "declarations": [
+        {"decl": "Derived(int v, int w)"}, {"decl": "~Derived()"}, {"decl": "int extra() const"}]}]
 PCLS_HPP = """
-class Cls { public: int value; int ro; double other; explicit Cls(int v); ~Cls(); int get() const; void set(int v); int add(const Cls &other, int k = 2); };
+class Cls { public: int value; int ro; double other; Cls(int v, bool quiet) : value(v), ro(2 * v), other(v + 0.5) { (void)quiet; } explicit Cls(int v); ~Cls(); int get() const; void set(int v); int add(const Cls &other, int k = 2); };
+"""
+PCLS_HPP += """
+class Derived : public Cls { public: int more; Derived(int v, int w); ~Derived(); int extra() const; };
 """
 PCLS_CPP = """
+Derived::Derived(int v, int w) : Cls(v, true), more(w) {
+    vt_begin("LibEnter", "Derived::Derived"); vt_target("ns1::Derived::Derived(int,int)"); vt_int(v); vt_int(w); vt_end();
+    vt_begin("LibExit", "Derived::Derived"); vt_target("ns1::Derived::Derived(int,int)"); vt_obj(this); vt_end(); }
+Derived::~Derived() { }
+int Derived::extra() const {
+    vt_begin("LibEnter", "Derived::extra"); vt_target("ns1::Derived::extra()"); vt_obj(this); vt_end();
+    int rv = more + value;
+    vt_begin("LibExit", "Derived::extra"); vt_target("ns1::Derived::extra()"); vt_int(rv); vt_end(); return rv; }
+"""
+PCLS_CPP += """
 Cls::Cls(int v) : value(v), ro(2 * v), other(v + 0.5) {
     vt_begin("LibEnter", "Cls::Cls"); vt_target("ns1::Cls::Cls(int)"); vt_int(v); vt_end();
     vt_begin("LibExit", "Cls::Cls"); vt_target("ns1::Cls::Cls(int)"); vt_obj(this); vt_end(); }
@@ -222,6 +238,17 @@ def class_plan():
     call("method", "a.add() [no match]", add, [], [], [], {}, obj="a", name="add", selfid=1)
     call("method", "a.add(1) [no match]", add, [I(1)], [], [1], {}, obj="a", name="add", selfid=1)
     call("method", "a.get(1) [no match]", get, [I(1)], [], [1], {}, obj="a", name="get", selfid=1)
+    # a derived object: its own constructor and method, the inherited methods, and as an argument where the base is expected
+    dctor = [{"target": "ns1::Derived::Derived(int,int)", "sig": sig([pm("int"), pm("int")], False, "obj"), "names": ["v", "w"]}]
+    extra = [{"target": "ns1::Derived::extra()", "sig": sig([], True, "int"), "names": []}]
+    call("ctor", "e = Derived(4, 6)", dctor, [I(4), I(6)], [], [4, 6], {}, store="e", cls="Derived")
+    call("method", "e.get()", get, [], [], [], {}, obj="e", name="get", selfid=3)
+    call("method", "e.extra()", extra, [], [], [], {}, obj="e", name="extra", selfid=3)
+    call("method", "e.set(55)", setc, [I(55)], [], [55], {}, obj="e", name="set", selfid=3)
+    call("method", "e.extra()", extra, [], [], [], {}, obj="e", name="extra", selfid=3)
+    call("method", "a.add(e, 3)", add, [O(3), I(3)], [], ["@e", 3], {}, obj="a", name="add", selfid=1)
+    call("method", "e.add(other=a)", add, [], [("other", O(1))], [], {"other": "@a"}, obj="e", name="add", selfid=3)
+    call("ctor", "Derived(4) [no match]", dctor, [I(4)], [], [4], {}, store="f", cls="Derived")
     call("ctor", "Cls('x') [no match]", ctor, [{"t": "s", "v": [120]}], [], ["x"], {}, store="c")
     return P
 
@@ -264,7 +291,7 @@ for k in range(start, len(plan)):
         if c["kind"] == "func":
             r = getattr(psub, c["name"])(*pos, **kw)
         elif c["kind"] == "ctor":
-            r = psub.Cls(*pos, **kw)
+            r = getattr(psub, c.get("cls", "Cls"))(*pos, **kw)
             objs[c["store"]] = r
             order[id(r)] = len(order) + 1
         else:
